@@ -268,3 +268,64 @@ def run_automaton_unit(unit):
             except Exception as e:  # noqa
                 out[(k, p)] = exc_name(e)
     return out
+
+
+def run_utf8_unit(words):
+    """words -> [list of UTF-8 byte values | EXC:...] (what FieldType.to_bytes does with a term)"""
+    from whoosh import fields
+    fobj = fields.ID()
+    out = []
+    for w in words:
+        try:
+            out.append(list(bytearray(fobj.to_bytes(w))))
+        except Exception as e:  # noqa
+            out.append(exc_name(e))
+    return out
+
+
+def run_cursor_unit(unit):
+    """unit = (key, lexicon, terms): a one-segment index over `lexicon`, its real field cursor;
+    for every term `cur.find(term); cur.text()` -> text | None | EXC:...; and the cursor's own
+    iteration order (first()/next())."""
+    key, lex, terms = unit
+    ix = cached_index(key, [list(lex)])
+    out = {"find": [], "order": []}
+    with ix.reader() as r:
+        cur = r.cursor(FIELD)
+        for t in terms:
+            try:
+                cur.find(t)
+                out["find"].append(cur.text())
+            except Exception as e:  # noqa
+                out["find"].append(exc_name(e))
+        cur.first()
+        while cur.is_valid():
+            out["order"].append(cur.text())
+            cur.next()
+    return out
+
+
+def run_fne_unit(unit):
+    """unit = (w, ks, ps, probes, labels) -> {(k,p): [[find_next_edge(state_after(u), l) for l in
+    [None]+labels] for u in probes] | EXC}; labels are code points, results code points or None."""
+    from whoosh.automata import lev
+    w, ks, ps, probes, labels = unit
+    out = {}
+    for k in ks:
+        for p in ps:
+            try:
+                dfa = lev.levenshtein_automaton(w, k, p).to_dfa()
+                rows = []
+                for u in probes:
+                    st = dfa.start()
+                    for c in u:
+                        st = dfa.next_state(st, c)
+                    row = []
+                    for l in [None] + [chr(x) for x in labels]:
+                        r = dfa.find_next_edge(st, l, asbytes=False)
+                        row.append(None if r is None else ord(r))
+                    rows.append(row)
+                out[(k, p)] = rows
+            except Exception as e:  # noqa
+                out[(k, p)] = exc_name(e)
+    return out
